@@ -26,6 +26,7 @@ class Item:
         self.sig = sig        # for fn: text from 'fn' up to (not including) body brace or ';'
         self.body = body      # for fn: text including braces, or None for a declaration
         self.children = []    # for impl/trait: fn items
+        self.parent_text = None
 
 
 def skip_attrs(toks, i):
@@ -116,6 +117,8 @@ def parse_items(src, toks, i, end):
             name = toks[i + 1].text if kw == 'trait' else None
             it = Item(kw, norm_sp(header), name, src[toks[start_tok].start:toks[k].end], toks[start_tok].start)
             it.children = parse_items(src, toks, j + 1, k)
+            for ch in it.children:
+                ch.parent_text = it.text
             items.append(it)
             i = k + 1
         elif kw == 'mod':
